@@ -77,7 +77,7 @@ theorem parse_marshal_wire (T : Tables) (hT : T.OK) (na : Char → Bool) (maxLen
     refine ⟨bs, some fdl, ?_, ?_⟩
     · simp only [wireCodec, hmbody, Option.getD_some, Call.oob, hoob, hm]
     · simp only [wireCodec, hu]
-  obtain ⟨m', p1, p2, p3, p4, p5, p6, p7, p8, p9, p10⟩ :=
+  obtain ⟨m', p1, p2, p3, p4, p5, p6, p7, p8, p9, p10, _⟩ :=
     Main.parse_marshal T hT (wireCodec fuel) na maxLen st st' (.methodCall a) m hs hnonul h (some fdl)
       (.list (Code.plainList items)) hC
   have htr : truthy (m.attrs .signature) = true := by
@@ -156,7 +156,7 @@ theorem parse_marshal_wire_none (T : Tables) (hT : T.OK) (na : Char → Bool) (m
     refine ⟨bs, none, ?_, ?_⟩
     · simp only [wireCodec, hmbody, Option.getD_some, hoob, hm]
     · simp only [wireCodec, hu]
-  obtain ⟨m', p1, p2, p3, p4, p5, p6, p7, p8, p9, p10⟩ :=
+  obtain ⟨m', p1, p2, p3, p4, p5, p6, p7, p8, p9, p10, _⟩ :=
     Main.parse_marshal T hT (wireCodec fuel) na maxLen st st' c m hs hnonul h (some lall)
       (.list (Code.plainList items)) hC
   have htr : truthy (m.attrs .signature) = true := by
